@@ -326,13 +326,16 @@ def write_replay(pid, payload):
 
 
 def write_evidence(ctx, coverage, violations, assumptions):
-    os.makedirs(os.path.join(VERIF, 'evidence'), exist_ok=True)
+    # VERIF_EVIDENCE_DIR: set by tools/seedfull.sh while a seeded change is applied to /repo, so that the records of those
+    # (deliberately violating) runs never replace the evidence of the unchanged tree under /verif/evidence
+    evdir = os.environ.get('VERIF_EVIDENCE_DIR') or os.path.join(VERIF, 'evidence')
+    os.makedirs(evdir, exist_ok=True)
     ev = {
         'property_id': ctx.pid, 'tier': ctx.tier, 'seed': ctx.seed, 'level': 'proof',
         'coverage': coverage, 'assumptions': assumptions, 'wall_s': round(time.time() - ctx.t0, 2),
         'violations': violations,
     }
-    with open(os.path.join(VERIF, 'evidence', ctx.pid + '.json'), 'w') as f:
+    with open(os.path.join(evdir, ctx.pid + '.json'), 'w') as f:
         json.dump(ev, f, indent=1, default=str)
     return ev
 
